@@ -1,0 +1,7 @@
+//go:build !verif
+
+package zygo
+
+// verifStep is the verification hook in the VM run loop; it does
+// nothing unless built with -tags verif.
+func verifStep(env *Zlisp, instr Instruction) error { return nil }
